@@ -10,7 +10,8 @@ whose callsite it cares about (target prefix, span name, all field names declare
 gets a matcher when it is created, and while it is entered on the thread — and its value matchers are
 all satisfied by the values recorded so far — everything up to the directive's level is enabled.
 Directives without a span name and without value matchers are (also) static ones (C11's DSet).
-Values are integers and booleans (the pattern matchers for strings are not modelled).
+Values are integers, booleans, floats and — for filters built with regular expressions switched off — fixed texts matched
+against a value's Debug output (regular-expression matchers are not modelled).
 -/
 import TracingModel.Core.Directive
 
@@ -22,7 +23,8 @@ inductive Val
   | int (n : Int)
   | bool (b : Bool)
   | float (quarters : Int)  -- an f64 literal / value that is a multiple of 1/4 (|v - e| < EPSILON is equality on these); never equal to an integer matcher or value
-  | other                   -- a string / debug value: matches no integer or boolean matcher
+  | dbg (s : Str)           -- (filters built with regular expressions switched off) a matcher that is a fixed text / a value whose Debug output is that text
+  | other                   -- a string value: matches no matcher of the model (its Debug output is quoted)
 deriving DecidableEq, Repr
 
 structure DDir where
